@@ -175,10 +175,13 @@ def run(tier):
             cA = [b""] + [cB[k] for k in range(1, 13) if k % 2 == 0]
             kw = dict(comp_type=(0 if i % 2 else 2), hash_type=1, chunk_hash_type=3, level=3)
             A = ref.build_file(cA, **kw)[0]; B = ref.build_file(cB, **kw)[0]; kind = "alternating"
+        if i in (3, 5):
+            # the overall checksum type SHA-512/128 (only selectable through the API): its lead is shorter than what the library
+            # reads to find it, so the tool has to continue where the library stopped, not at the lead's length
+            cB = [b""] + [corpus.text(rnd, 300 + 50 * k) for k in range(6)]; cA = [b""] + cB[2:5]
+            kw = dict(comp_type=2, hash_type=3 if i == 3 else 2, chunk_hash_type=3, level=3)
+            A = ref.build_file(cA, **kw)[0]; B = ref.build_file(cB, **kw)[0]; kind = "overall-type-%d" % kw["hash_type"]
         hB = ref.parse_header(B)
-        if hB.hash_type != 1:
-            B = ref.rebuild_from_parse(hB, B)            # (keep as is; zckdl handles SHA-1/SHA-256 overall types)
-            hB = ref.parse_header(B)
         bvalid = True
         if special.endswith("baddata"):
             # the file the server holds has every chunk right and a wrong whole-data checksum (header re-sealed): every
